@@ -51,6 +51,9 @@ Fixpoint sk_part (p : mpart) : bytes :=
                    | q :: l' => (match pending with Some t => [B "L" ++ hex t] | None => [] end) ++ sk_part q :: go l' None
                    end in
   let sk_w := fun (w : list mpart) => B "[" ++ join (B ",") (sk_list w None) ++ B "]" in
+  (* in an arithmetic expression the literals stay apart: the lexer starts a new one after every blank *)
+  let sk_nm := fix go (l : list mpart) : list bytes :=
+                 match l with [] => [] | q :: l' => sk_part q :: go l' end in
   match p with
   | MLit s => B "L" ++ hex s
   | MQuote t v => B "Q" ++ hex [t] ++ (match v with [] => B "N" | _ => sk_w v end)
@@ -58,7 +61,7 @@ Fixpoint sk_part (p : mpart) : bytes :=
     B "P" ++ (if br then B "1" else B "0") ++ B "{" ++ hex n ++ B ":" ++ hex o ++ B ":"
       ++ (match w with None => B "N" | Some x => sk_w x end) ++ B "}"
   | MSubst d c => B "C" ++ (if d then B "d" else B "b") ++ c
-  | MArith e => B "A" ++ sk_w e
+  | MArith e => B "A" ++ B "[" ++ join (B ",") (sk_nm e) ++ B "]"
   end.
 
 Fixpoint sk_parts (l : list mpart) (pending : option bytes) : list bytes :=
@@ -71,3 +74,6 @@ Fixpoint sk_parts (l : list mpart) (pending : option bytes) : list bytes :=
 Definition sk_word (w : mword) : bytes := B "[" ++ join (B ",") (sk_parts w None) ++ B "]".
 (* a possibly-nil word *)
 Definition sk_oword (w : option mword) : bytes := match w with None => B "N" | Some x => sk_word x end.
+
+(* the expression word of an arithmetic command: literals are not merged *)
+Definition sk_word_arith (w : mword) : bytes := B "[" ++ join (B ",") (map sk_part w) ++ B "]".
